@@ -252,6 +252,9 @@ fn glob_dev_class(pat: &str, expected: bool) -> String {
 pub fn handle_factory() -> impl FnMut(&str, &Value, &mut WorkerIo) -> (Value, bool) {
     let mut worlds = Worlds::new(make_world);
     move |tier: &str, task: &Value, io: &mut WorkerIo| {
+        if let Some(v) = super::bytesfam::worker(task, io) {
+            return (v, false);
+        }
         if let Some(l) = task.get("glob") {
             let _ = tier;
             return (glob_sweep(l.as_u64().unwrap_or(3) as usize), false);
@@ -289,7 +292,8 @@ pub fn parent(tier: &str) -> i32 {
         }
         Outcome::Died { status, case } => report.machinery_errors.push(format!("glob sweep worker died: {} {:?}", status, case)),
     }
-    e1common::merge_coverage(&mut report, &all, json!({"glob_matcher_vs_reference": glob_cov}));
+    let bytes_cov = super::bytesfam::parent(&pool, &mut report, "C01", &["string", "keyname"]);
+    e1common::merge_coverage(&mut report, &all, json!({"glob_matcher_vs_reference": glob_cov, "byte_transparency": bytes_cov["byte_transparency"]}));
     report.assumptions = vec![
         "reference semantics as written in /verif/SEMANTICS.md (Redis 7.x), replies compared in normal form (any error = any error, null array = empty array)".into(),
         "the empty key is outside the alphabet (ferrous rejects it on purpose)".into(),
